@@ -34,6 +34,7 @@ def main():
     tier = "quick"
     needs = ""
     race = "-race " if "--race" in sys.argv else ""
+    scratch = "--scratch" in sys.argv  # run the check against the seed's own worktree (vcheck --repo), leave /repo alone
     args = sys.argv[4:]
     for i, a in enumerate(args):
         if a == "--tier":
@@ -74,21 +75,23 @@ def main():
     # 5. run the check against /repo with the patch applied
     detected, lines, wall = None, [], 0.0
     if valid:
-        rc, st = run("git -C /repo status --porcelain")
-        assert st.strip() == "", "/repo is not clean"
-        rc, o = run(f"git -C /repo apply {out}/patch.diff")
-        assert rc == 0, "patch does not apply to /repo: " + o
+        if not scratch:
+            rc, st = run("git -C /repo status --porcelain")
+            assert st.strip() == "", "/repo is not clean"
+            rc, o = run(f"git -C /repo apply {out}/patch.diff")
+            assert rc == 0, "patch does not apply to /repo: " + o
         try:
             t0 = time.time()
-            rc, o = run(f"/verif/bin/vcheck run --property {prop} --tier {tier}", cwd="/verif", timeout=CHECK_TIMEOUT)
+            rc, o = run(f"/verif/bin/vcheck run --property {prop} --tier {tier}" + (f" --repo {wt}" if scratch else ""), cwd="/verif", timeout=CHECK_TIMEOUT)
             wall = time.time() - t0
             lines = [l for l in o.splitlines() if l.startswith(("VIOLATION", "  harness=", "OK ", "INCONCLUSIVE", "TOOL-ERROR", "KNOWN", "TIMEOUT"))][:12]
             detected = rc == 1 and any(l.startswith("VIOLATION") for l in lines)
-            ran.append({"cmd": f"bin/vcheck run --property {prop} --tier {tier} (patch applied to /repo)", "exit": rc, "wall_s": round(wall, 1)})
+            ran.append({"cmd": f"bin/vcheck run --property {prop} --tier {tier} " + ("(--repo: the seed's worktree = /repo HEAD + patch)" if scratch else "(patch applied to /repo)"), "exit": rc, "wall_s": round(wall, 1)})
         finally:
-            run("git -C /repo checkout -- .")
-            # evidence was overwritten by a run on a modified tree: restore the committed one
-            run(f"git -C /verif checkout -- evidence/{prop}.json")
+            if not scratch:
+                run("git -C /repo checkout -- .")
+                # evidence was overwritten by a run on a modified tree: restore the committed one
+                run(f"git -C /verif checkout -- evidence/{prop}.json")
     meta = {"name": name, "property": prop, "valid_seed": valid, "needs_to_manifest": needs,
             "demo": "zz_seed_demo_test.go (TestSeedDemo) in " + pkg, "detected_by_check": detected, "tier": tier,
             "check_output": lines, "ran": ran}
